@@ -30,9 +30,17 @@ NamePart(sm, n) ==
 
 Max(a, b) == IF a >= b THEN a ELSE b
 
+\* In foreign content the tag scanner cannot decide some tags from the name alone (integration points, font,
+\* names its hash cannot represent inside MathML: TreeSim!NeedsLexeme) and hands them to the lexer, which keeps the
+\* whole unfinished tag.  That is the one designed exception to "through its name".
+TagName(r, sm) == LowerSeq(SubSeq(r.input, sm.tok.nm[1] + 1, sm.tok.nm[2]))
+WholeTagKept(r, sm) == sm.st \in (InTag \ InName) /\ NeedsLexeme(sm.tb, TagName(r, sm), sm.tok.k = "et")
+
 \* no handlers: nothing held back after ordinary text / a complete token; else the start of one unfinished
 \* tag or a few bytes of look-ahead
-BoundNone(sm, n) == IF sm.st \in PlainText THEN 0 ELSE Max(NamePart(sm, n), LookAhead)
+BoundNone(r, sm, n) == IF sm.st \in PlainText THEN 0
+                       ELSE IF WholeTagKept(r, sm) THEN Max(n - sm.tok.s, LookAhead)
+                       ELSE Max(NamePart(sm, n), LookAhead)
 
 \* observers: at most the single unfinished token (plus an incomplete character when text is decoded)
 \* (claimed for prefixes whose unfinished token is a tag, comment, doctype or plain text: inside escaped
@@ -51,9 +59,9 @@ Check(r, k) ==
   ELSE LET n == r.cuts[k]  pending == n - r.emitted[k] IN
        IF r.emitted[k] # r.fresh[k] THEN "C09: bytes emitted after a write depend on earlier chunking"
        ELSE IF pending < 0 THEN "C09: more bytes emitted than written"
-       ELSE IF r.html /\ r.kind = "none" /\ pending > BoundNone(AfterPrefix(SubSeq(r.input, 1, n), "sim", FALSE), n)
+       ELSE IF r.kind = "none" /\ pending > BoundNone(r, AfterPrefix(SubSeq(r.input, 1, n), "sim", FALSE), n)
             THEN "C09: with no handlers more than an unfinished tag start / look-ahead is held back"
-       ELSE IF r.html /\ r.kind = "observers"
+       ELSE IF r.kind = "observers"
                /\ LET b == BoundObs(r, AfterPrefix(SubSeq(r.input, 1, n), "sim", FALSE), n) IN b >= 0 /\ pending > b
             THEN "C09: with observers more than the single unfinished token is held back"
        ELSE Check(r, k + 1)
